@@ -189,6 +189,21 @@ CLAIMED = {
         'covered: process_snep_request field slicing, SnepClient.put/get header construction, handover client and '
         'server, the full stack from connect() to the radio (modular proof stops at the socket).',
    technique='contract-based deductive verification: loop invariants over a ghost byte stream (pyvc)'),
+ 'C09': dict(
+   category='other',
+   text='Sequential half only. Termination state: ServiceAccessPoint.shutdown leaves every socket of each type unbound, '
+        'SHUTDOWN, with empty queues and its conditions notified; LogicalLinkController.terminate clears all 64 table '
+        'entries (loop invariant) and sets link state SHUTDOWN; run_as_initiator/run_as_target call terminate() on '
+        'every exit, normal or exceptional. After termination: every socket API entry point of the link controller, '
+        'for every socket type, returns or raises nfc.llcp.Error (or the documented argument errors) and never reaches '
+        'a wait() without timeout. Wake-up: for every blocking call site (DLC recv/accept/connect/send/close/poll, LDL '
+        'recvfrom/sendto/poll, RAP recv/poll, ServiceDiscovery.resolve), if the link terminates while the caller '
+        'waits, the call returns or raises nfc.llcp.Error and does not wait again.',
+   design_ref='DESIGN.md sections 5 (C09) and 6',
+   note='NOT decided (outside this technique family): that a blocked thread is actually woken under every schedule, '
+        'bounded time, connect() returning, service threads exiting. "Terminates while waiting" is modelled as the '
+        'effect of close() at the wait() site; threads are not executed.',
+   technique='contract-based deductive verification of the sequential obligations (pyvc); liveness not applicable'),
 }
 
 NOT_APPLICABLE = {}
